@@ -38,6 +38,7 @@ MIN_REACH = {
     "varying_coordinate_labels_selected": {"quick": 300, "thorough": 5000},
     "positional_cases_named_by_stored_fn_args": {"quick": 10, "thorough": 200},
     "caller_mappings_compared": {"quick": 1500, "thorough": 30000},
+    "sweeps_whose_array_dtype_depends_on_the_arguments": {"quick": 40, "thorough": 600},
 }
 TIME_BUDGET = {"quick": 400, "thorough": 3400}
 
@@ -77,7 +78,9 @@ def _gen(rng, entry):
             dims = () if is_df else rng.choice(OUT_SPECS)
             typ = rng.choice(SCALAR_TYPES) if not dims else "s"
             outs.append({"name": ["y", "Ex", "out_2", "sz"][j] if rng.random() < 0.8 else "v%d" % j,
-                         "dims": list(dims), "type": typ})
+                         "dims": list(dims), "type": typ,
+                         # an array output whose dtype depends on the arguments (real for some settings, complex for others)
+                         "vary_dtype": bool(dims) and rng.random() < 0.2})
         c["outputs"] = outs
         c["var_names_spelling"] = rng.choice(["str", "tuple", "list"]) if nout == 1 else rng.choice(["tuple", "list"])
         c["var_dims_spelling"] = rng.choice(["dict", "dict_tuplevals", "onetoone", "items", "grouped", "str"])
@@ -277,13 +280,15 @@ def run_case(ctx, case):
         def spec(o):
             if not o["dims"]:
                 return o["type"]
-            return "a" + "x".join(str(DIMSIZE[d]) for d in o["dims"])
+            return ("c" if o.get("vary_dtype") else "a") + "x".join(str(DIMSIZE[d]) for d in o["dims"])
         if len(outs) == 1:
             o = outs[0]
             kind = ({"s": "float", "i": "int", "b": "bool", "t": "str"}[o["type"]] if not o["dims"]
-                    else "array:" + "x".join(str(DIMSIZE[d]) for d in o["dims"]))
+                    else ("carray:" if o.get("vary_dtype") else "array:") + "x".join(str(DIMSIZE[d]) for d in o["dims"]))
         else:
             kind = "multi:" + ",".join(spec(o) for o in outs)
+        if any(o.get("vary_dtype") for o in outs):
+            ctx.count("sweeps_whose_array_dtype_depends_on_the_arguments")
         vn = [o["name"] for o in outs]
         var_names = vn[0] if case["var_names_spelling"] == "str" else (
             tuple(vn) if case["var_names_spelling"] == "tuple" else list(vn))
